@@ -142,6 +142,70 @@ func structFieldPath(t types.Type, path string) []int {
 	return out
 }
 
+// resolveField walks "a.b.c" from the object iv refers to, following pointer fields; it returns the
+// address of the last field, its value and its type.
+func resolveField(s *State, iv Iface, path string) (Ptr, Value, types.Type) {
+	cur := iv.v.(Ptr)
+	t := iv.t
+	var fp Ptr
+	var val Value
+	for _, name := range strings.Split(path, ".") {
+		if p, ok := t.Underlying().(*types.Pointer); ok {
+			t = p.Elem()
+		}
+		st, ok := t.Underlying().(*types.Struct)
+		if !ok {
+			unsupported("resolveField: %v is not a struct (path %s)", t, path)
+		}
+		found := false
+		for i := 0; i < st.NumFields(); i++ {
+			if st.Field(i).Name() == name {
+				fp = cur.field(i)
+				val = s.load(fp)
+				t = st.Field(i).Type()
+				found = true
+				break
+			}
+		}
+		if !found {
+			unsupported("resolveField: no field %s in %v", name, t)
+		}
+		if _, isPtr := t.Underlying().(*types.Pointer); isPtr {
+			if np, ok := val.(Ptr); ok {
+				cur = np
+			}
+		} else {
+			cur = fp
+		}
+	}
+	return fp, val, t
+}
+
+// fieldTypeOf returns the type of the field "a.b.c" inside the struct type t.
+func fieldTypeOf(t types.Type, path string) types.Type {
+	for _, name := range strings.Split(path, ".") {
+		if p, ok := t.Underlying().(*types.Pointer); ok {
+			t = p.Elem()
+		}
+		st, ok := t.Underlying().(*types.Struct)
+		if !ok {
+			unsupported("fieldTypeOf: %v is not a struct", t)
+		}
+		found := false
+		for i := 0; i < st.NumFields(); i++ {
+			if st.Field(i).Name() == name {
+				t = st.Field(i).Type()
+				found = true
+				break
+			}
+		}
+		if !found {
+			unsupported("fieldTypeOf: no field %s", name)
+		}
+	}
+	return t
+}
+
 func (w *Worker) intrinsic(s *State, f *Frame, name string, fn *ssa.Function, args []Value, dst ssa.Value) bool {
 	adv := func(v Value) bool {
 		w.setResult(f, dst, v)
@@ -395,6 +459,33 @@ func (w *Worker) intrinsic(s *State, f *Frame, name string, fn *ssa.Function, ar
 			va, vb := s.load(pa), s.load(pb)
 			s.store(pa, vb)
 			s.store(pb, va)
+			return adv(nil)
+		case "GuardField":
+			// GuardField(obj, "a.b", muOwner, "lock", name): the object the (unexported) field obj.a.b refers to is
+			// guarded by the mutex the field muOwner.lock holds (or refers to)
+			ov, mv := args[0].(Iface), args[2].(Iface)
+			_, target, _ := resolveField(s, ov, args[1].(string))
+			mfield, mval, mt := resolveField(s, mv, args[3].(string))
+			mp := mfield
+			if _, isPtr := mt.Underlying().(*types.Pointer); isPtr {
+				mp = mval.(Ptr)
+			}
+			isRW := BV(64, 0)
+			if strings.Contains(mt.String(), "RWMutex") {
+				isRW = BV(64, 1)
+			}
+			id := 0
+			switch x := target.(type) {
+			case Ptr:
+				id = x.id
+			case MapRef:
+				id = x.id
+			case SliceV:
+				id = x.arr.id
+			}
+			if id != 0 {
+				s.ghost[fmt.Sprintf("guard/%d", id)] = Tuple{mp.key(), args[4].(string), mp, isRW}
+			}
 			return adv(nil)
 		case "Poke", "Peek":
 			iv := args[0].(Iface)
